@@ -363,7 +363,7 @@ Lemma state_shape ins h : well_scoped h ->
   /\ 1 <= depth_from 1 h.
 Proof.
   intro Hw. destruct (Inv_top_run ins h Hw) as (c & inner & n & Hst & Hd & _ & _).
-  unfold run in Hd. rewrite run_depth in Hd. rewrite Hst. cbn. repeat split; lia.
+  unfold run in Hd. rewrite run_depth in Hd. rewrite Hst. cbn [scopes use_top length]. split; [exact Hd|]. split; [reflexivity|]. rewrite <- Hd. lia.
 Qed.
 
 Lemma reads_counted ins h :
@@ -435,7 +435,7 @@ Proof.
   intro Hw. cbn zeta. unfold run. rewrite run_split. cbn [r_state r_depth r_events].
   fold (run ins h1).
   destruct (Inv_top_run ins h1 Hw) as (c & inner & n & Hst & Hd & _ & _).
-  unfold run_from at 1 2 3 4. cbn [fold_left]. unfold run_step. cbn [r_state r_depth r_events].
+  unfold run_from. cbn [fold_left]. unfold run_step. cbn [r_state r_depth r_events].
   rewrite Hst. cbn [step fst snd next_depth scopes use_top].
   exists ((ins, c) :: inner), 0, [], 0. repeat split.
   - discriminate.
@@ -464,7 +464,7 @@ Lemma inner_stream ins h1 a h2 : well_scoped h1 ->
 Proof.
   intros Hw A1 d Hs vs j Hj.
   destruct (inner_inv ins h1 a h2 Hw Hs) as (pre & c & post & n & _ & _ & _ & _ & Hv & _).
-  subst vs d. rewrite Hv in *. rewrite cyc_length in Hj.
+  subst vs d A1. rewrite Hv in *. rewrite cyc_length in Hj.
   rewrite cyc_nth by exact Hj. rewrite rev_length. reflexivity.
 Qed.
 
@@ -484,7 +484,7 @@ Lemma inner_empty ins h1 h2 : well_scoped h1 ->
 Proof.
   intros Hw A1 d Hs.
   destruct (inner_inv ins h1 [] h2 Hw Hs) as (pre & c & post & n & _ & _ & _ & _ & Hv & _).
-  subst d. rewrite Hv. apply cyc_all_zero.
+  subst d A1. rewrite Hv. apply cyc_all_zero.
 Qed.
 
 Lemma enter_depth ins h1 a :
